@@ -665,6 +665,13 @@ Definition C12_round (c : ccfg) (parent : json) (key : string) (evs : list ev) (
       if negb (qhas qs "AddRateLimited" key) && negb (qhas qs "Forget" key) then Some "neither-requeued-nor-forgotten" else
       (* a hard failure anywhere must surface as an error with back-off *)
       if existsb hard_failure evs && negb (qhas qs "AddRateLimited" key) then Some "failure-swallowed-without-requeue" else
+      (* before the hook the parent is read for one reason only - to re-check that it may still adopt or be
+         finalized: a read that fails (gone included) ends the sync with an error; the hook is not reached *)
+      if existsb (fun e => match is_api e with
+                           | Some q => targets_parent c parent q && verb_eqb (q_verb q) VGet && negb (accepted e)
+                           | None => false end) (before_hook evs) &&
+         negb (match hook_events evs with [] => true | _ => false end) && negb (qhas qs "AddRateLimited" key)
+      then Some "failed-parent-read-swallowed-without-requeue" else
       (* after the hook only the documented races are benign, each at its own call site: any other
          refused request (a conflict on a delete or a create, say) must surface as an error too *)
       if existsb (fun e => negb (benign_after_hook c parent e)) (after_hook evs) && negb (qhas qs "AddRateLimited" key)
